@@ -27,7 +27,8 @@ try:
         if f.startswith(("demo%s" % X, "shim")) and f.endswith((".c", ".h")):
             shutil.copy(os.path.join(out, f), os.path.join(wt, "out", f))
     fix = lambda c: c.replace(src, wt)
-    build, run = fix(meta["demo_build"]), fix(meta["demo_run"])
+    strip_git = lambda c: " && ".join(seg.strip() for seg in c.split("&&") if not seg.strip().startswith("git "))
+    build, run = strip_git(fix(meta["demo_build"])), strip_git(fix(meta["demo_run"]))
     sh("make -C src")
     b = sh(build)
     r0 = sh(run, timeout=300)
